@@ -35,7 +35,9 @@ PfxAnswer(g, p, as) == CASE p = 1 -> "valid"
                          [] p = 2 -> (IF Even(g) THEN "valid" ELSE "notfound")
                          [] p = 3 -> (IF as = 65100 + g THEN "valid" ELSE "invalid")
                          [] p = 4 -> (IF Even(g) THEN "valid" ELSE "invalid")
-KeyAnswer(g, p) == IF ~gens[g + 1].keys THEN [n |-> 0, tag |-> -1]
+                         [] p = 7 -> "valid"      \* the other socket's record: untouched by every reload
+KeyAnswer(g, p) == IF p = 8 THEN [n |-> 1, tag |-> 34]   \* the other socket's key
+                   ELSE IF ~gens[g + 1].keys THEN [n |-> 0, tag |-> -1]
                    ELSE IF p = 5 THEN [n |-> 1, tag |-> 1] ELSE [n |-> 1, tag |-> 100 + g]
 (* a failed reload leaves the previous generation's data in place *)
 Eff(g) == gens[g + 1].eff
